@@ -31,6 +31,10 @@ Sensitivity (quick tier, seed 1, one mutant at a time on a scratch copy; all run
     also by replays/C43/F03-host-port-4301-digits.json)
   * ``is_valid_ip`` NUL guard removed ................................ caught (C43.ip_nul_accepted)
   * ``format_timestamp`` ``utctimetuple()`` -> ``timetuple()`` ........ caught (C43.timestamp_roundtrip)
+  * ``format_timestamp`` datetime branch ``calendar.timegm(ts.utctimetuple())`` -> ``ts.timestamp()`` (a naive datetime
+    read as process-local time) ... caught (C43.timestamp_roundtrip, form naive_datetime) since every timestamp case
+    runs under a generated process time zone (TZ = UTC, XST-05:30, EST5EDT,..., AAA+8, ... + ``time.tzset()``, restored
+    in ``finally``); invisible before because the sandbox runs in UTC (sixth-round mutation testing)
   * ``_parse_header`` not lower-casing names ......................... caught (C43.encode_roundtrip)
   * NOT caught because equivalent: ``_netloc_re`` non-greedy (planned in DESIGN; the ``$`` anchor forces
     the same split) and ``(\\d+)`` -> ``(\\d*)`` (``int("")`` lands in the existing ``except ValueError``).
@@ -39,9 +43,11 @@ Open findings (known_findings.d/C43.json, findings_inbox/C43-parse-header-rfc223
 ``_parse_header`` raises on untrusted text, all inside ``email.utils`` RFC 2231 handling.
 """
 import calendar
+import contextlib
 import datetime
 import email.utils
 import ipaddress
+import os
 import re
 import time
 from urllib.parse import parse_qsl
@@ -654,10 +660,41 @@ def _parse_imf(ctx, text, src):
     return t
 
 
+@contextlib.contextmanager
+def process_timezone(tz):
+    """Run a block with the process-local time zone set to the POSIX TZ string `tz` (no tzdata needed); TZ and the C
+    library state are restored afterwards.  HTTP timestamps are absolute: nothing may depend on it."""
+    saved = os.environ.get("TZ")
+    os.environ["TZ"] = tz
+    time.tzset()
+    try:
+        yield
+    finally:
+        if saved is None:
+            del os.environ["TZ"]
+        else:
+            os.environ["TZ"] = saved
+        time.tzset()
+
+
+PROCESS_TZS = ["UTC", "XST-05:30", "EST5EDT,M3.2.0,M11.1.0", "AAA+8", "BBB-13", "CET-1CEST,M3.5.0,M10.5.0/3", "<-0930>9:30"]
+
+
 def run_timestamp(ctx, case):
-    kind = case[0]
+    process_tz = case[-1] if isinstance(case[-1], str) else "UTC"  # older replays carry no process time zone
+    if isinstance(case[-1], str):
+        case_body = case[:-1]
+    else:
+        case_body = case
+    with process_timezone(process_tz):
+        _run_timestamp(ctx, case, case_body, process_tz)
+
+
+def _run_timestamp(ctx, case, case_body, process_tz):
+    kind = case_body[0]
+    tzlabel = "ts_process_tz_utc" if process_tz == "UTC" else "ts_process_tz_non_utc"
     if kind == "instant":
-        _, t, micro, tzmin = case
+        _, t, micro, tzmin = case_body
         naive = _EPOCH + datetime.timedelta(seconds=t)
         tz = datetime.timezone(datetime.timedelta(minutes=tzmin))
         aware = (naive.replace(tzinfo=datetime.timezone.utc)).astimezone(tz)
@@ -677,20 +714,21 @@ def run_timestamp(ctx, case):
             out = format_timestamp(v)
             got = _parse_imf(ctx, out, [name, t, micro, tzmin])
             if got is not None and got != t:
-                ctx.fail("C43.timestamp_roundtrip", {"form": name, "t": t, "micro": micro, "tzmin": tzmin, "out": out, "parsed": got})
+                ctx.fail("C43.timestamp_roundtrip", {"form": name, "t": t, "micro": micro, "tzmin": tzmin, "out": out, "parsed": got,
+                                                     "process_tz": process_tz})
             outs.append(out)
         if len(set(outs)) != 1:
-            ctx.fail("C43.timestamp_forms_differ", {"t": t, "outs": outs})
-        labels = {"ts_instant"}
+            ctx.fail("C43.timestamp_forms_differ", {"t": t, "outs": outs, "process_tz": process_tz})
+        labels = {"ts_instant", tzlabel}
         if tzmin:
             labels.add("ts_aware_nonutc")
         if micro:
             labels.add("ts_microseconds")
         if naive.year > 2037:
             labels.add("ts_after_2038")
-        ctx.note(case, labels, nontrivial=bool(tzmin or micro))
+        ctx.note(case, labels, nontrivial=bool(tzmin or micro or process_tz != "UTC"))
     else:
-        _, f = case
+        _, f = case_body
         out = format_timestamp(f)
         got = _parse_imf(ctx, out, ["float", f])
         lo = int(f // 1)
@@ -698,10 +736,10 @@ def run_timestamp(ctx, case):
         ok = got == lo or (got == lo + 1 and f + 1e-6 >= lo + 1)
         if got is not None and not ok:
             ctx.fail("C43.timestamp_roundtrip", {"form": "float", "t": f, "out": out, "parsed": got})
-        ctx.note(case, {"ts_float"}, nontrivial=f != lo)
+        ctx.note(case, {"ts_float", tzlabel}, nontrivial=f != lo)
 
 
-timestamp_s = st.one_of(
+_timestamp_core_s = st.one_of(
     st.tuples(st.just("instant"), st.one_of(st.integers(0, 4 * 10 ** 9), st.sampled_from(
         [0, 1, 59, 60, 86399, 86400, 951782400, 951868799, 2 ** 31 - 1, 2 ** 31, 2 ** 31 + 1, 4 * 10 ** 9, 1359312200])),
         st.one_of(st.just(0), st.integers(0, 999999)), st.one_of(st.just(0), st.integers(-23 * 60 - 59, 23 * 60 + 59))),
@@ -709,6 +747,8 @@ timestamp_s = st.one_of(
     st.tuples(st.just("float"), st.tuples(st.integers(0, 4 * 10 ** 9), st.sampled_from([0.5, 0.999999, 0.9999999, 0.25, 1e-7])).map(
         lambda t: float(t[0]) + t[1])),
 )
+# every case runs under a generated process time zone (last field)
+timestamp_s = st.tuples(_timestamp_core_s, st.sampled_from(["UTC"] + PROCESS_TZS)).map(lambda t: t[0] + (t[1],))
 
 
 # ----------------------------------------------------------------------------- url_concat
